@@ -182,9 +182,9 @@ _OV = [
 
 
 OV_WHICH = int(os.environ.get("C19_OVW", "-1"))
-# The subject is environment HISTORY (lexer caches): building environments and compiling templates of two engines under tracing costs minutes per
-# path, so under CrossHair the context is pinned (x = "a", flag) and only the history bit is explored; the whole finite space below is executed
-# natively (a concrete run, labelled as such in the evidence)
+# The subject is environment HISTORY (lexer caches): building environments and compiling templates of two engines under tracing costs more than
+# ten minutes per path, so this condition is registered as native-only: the whole finite space below is executed with plain CPython (a concrete
+# run, labelled as such in the evidence)
 UNDER_XH = os.environ.get("VERIF_UNDER_CROSSHAIR") == "1"
 
 
